@@ -1,4 +1,5 @@
 mod ackmgr;
+mod cidreg;
 mod apps;
 mod common;
 mod frames;
@@ -97,6 +98,8 @@ fn main() {
         }
         // ackmgr-run <seed> <count> <out.ndjson>
         "ackmgr-run" => ackmgr::run(&args[1..]),
+        // cidreg-run <behaviours.txt | random:<count>:<seed>> <out.ndjson>
+        "cidreg-run" => cidreg::run(&args[1..]),
         // one <scenario.json> <out.ndjson>
         "one" => {
             let sc: scen::Scenario = serde_json::from_str(&std::fs::read_to_string(&args[1]).unwrap()).unwrap();
